@@ -374,13 +374,14 @@ Fixpoint with_items (its : list item) (es : list expn) (c : acall) : res (list e
 
 (* what one operation hands back to the test: the value returned (when asked for), the caller's output buffers after an actual
    call (in the order they were passed), the answer of expectedCallsLeft *)
-Record effect := { r_ret : option (option pv); r_outs : list (list N); r_left : option bool }.
-Definition no_effect : effect := {| r_ret := None; r_outs := []; r_left := None |}.
+Record effect := { r_ret : option (option pv); r_outs : list (list N); r_left : option bool;
+                   r_post : list failure   (* the failures an end-of-test check delivered to a reporter that does not leave the test *) }.
+Definition no_effect : effect := {| r_ret := None; r_outs := []; r_left := None; r_post := [] |}.
 Definition bufs_of (its : list item) : list (list N) :=
   flat_map (fun it => match it with IOut _ buf => [buf] | _ => [] end) its.
 (* MockIgnoredActualCall: nothing is written, hasReturnValue() is false *)
 Definition ignored_effect (its : list item) (want : bool) : effect :=
-  {| r_ret := if want then Some None else None; r_outs := bufs_of its; r_left := None |}.
+  {| r_ret := if want then Some None else None; r_outs := bufs_of its; r_left := None; r_post := [] |}.
 Definition last_outs (m : mock) : list (list N) :=
   match m_last m with Some c => map snd (c_outs c) | None => [] end.
 
@@ -408,9 +409,9 @@ Definition actual_call (fx : bool) (m : mock) (f : name) (its : list item) (want
                 if want then
                   match finish_last m with                              (* returnValue() -> checkExpectations() *)
                   | inr fl => inr fl
-                  | inl m => inl (m, {| r_ret := Some (cur_ret (m_exps m)); r_outs := last_outs m; r_left := None |})
+                  | inl m => inl (m, {| r_ret := Some (cur_ret (m_exps m)); r_outs := last_outs m; r_left := None; r_post := [] |})
                   end
-                else inl (m, {| r_ret := None; r_outs := last_outs m; r_left := None |})
+                else inl (m, {| r_ret := None; r_outs := last_outs m; r_left := None; r_post := [] |})
             end
         end
   end.
@@ -435,12 +436,32 @@ Definition calls_left (m : mock) : res (mock * bool) :=
   | inl m => inl (m, unfulfilled (m_exps m))
   end.
 
+(* The end-of-test check as MockSupportPlugin::postTestAction makes it: MockSupport::checkExpectations() with a reporter that
+   records the failure and RETURNS (MockSupportPluginReporter::failTest = result.addFailure), followed by clear().  A last actual
+   call that cannot be finished (missing parameter / object) reports its failure and is then in state CALL_FAILED, so that
+   wasLastActualCallFulfilled() is false and the unfulfilled expectation of that same deviation is not reported a second time;
+   failTestWithExpectedCallsNotFulfilled clears the mock before it reports, so hasCallsOutOfOrder() sees nothing afterwards. *)
+Definition finish_last_nl (m : mock) : mock * list failure :=
+  match m_last m with
+  | None => (m, [])
+  | Some c => match check_call (m_exps m) c with
+              | inr fl => (with_exps m (m_exps m) (Some (set_state (set_checked c) Failed)), [fl])
+              | inl (es, c') => (with_exps m es (Some c'), [])
+              end
+  end.
+Definition post_check (m : mock) : list failure :=
+  let (m, fs) := finish_last_nl m in
+  if last_ok m && unfulfilled (m_exps m) then fs ++ [history (m_exps m) FNotFulfilled]
+  else if existsb e_ooo (m_exps m) then fs ++ [history (filter e_ooo (m_exps m)) FOutOfOrder]
+  else fs.
+
 (* ---------------------------------------------------------------- scenarios on one mock *)
 Inductive op :=
 | OExpect (n : N) (f : name) (ps : list (name * pv)) (outs : list (name * list N)) (obj : option Z) (ret : option pv) (ign : bool)
 | OCall (f : name) (its : list item) (want : bool)
 | OCheck | OClear | OStrict | OIgnoreOtherCalls
-| OEnable | ODisable | OLeft.
+| OEnable | ODisable | OLeft
+| OPost.   (* the plugin's end-of-test action: checkExpectations() reporting to a reporter that does not leave, then clear() *)
 
 Definition step (fx : bool) (m : mock) (o : op) : res (mock * effect) :=
   match o with
@@ -452,21 +473,24 @@ Definition step (fx : bool) (m : mock) (o : op) : res (mock * effect) :=
   | OIgnoreOtherCalls => inl (set_ignore m, no_effect)
   | OEnable => inl (set_enabled m true, no_effect)
   | ODisable => inl (set_enabled m false, no_effect)
-  | OLeft => match calls_left m with inr fl => inr fl | inl (m, b) => inl (m, {| r_ret := None; r_outs := []; r_left := Some b |}) end
+  | OLeft => match calls_left m with inr fl => inr fl | inl (m, b) => inl (m, {| r_ret := None; r_outs := []; r_left := Some b; r_post := [] |}) end
+  | OPost => inl (mock0, {| r_ret := None; r_outs := []; r_left := None; r_post := post_check m |})
   end.
 
 (* observation: the failing operation (index, failure) if any, the values returned to the calls that asked, the output buffers
    after every completed actual call, the answers of expectedCallsLeft *)
-Record obs := { o_fail : option (N * failure); o_rets : list (option pv); o_outs : list (list N); o_left : list bool }.
+Record obs := { o_fail : option (N * failure); o_rets : list (option pv); o_outs : list (list N); o_left : list bool;
+                o_post : list failure   (* the failures the end-of-test checks (OPost) reported, in order *) }.
 
-Record acc := { a_rets : list (option pv); a_outs : list (list N); a_left : list bool }.   (* reversed *)
-Definition acc0 : acc := {| a_rets := []; a_outs := []; a_left := [] |}.
+Record acc := { a_rets : list (option pv); a_outs : list (list N); a_left : list bool; a_post : list failure }.   (* reversed *)
+Definition acc0 : acc := {| a_rets := []; a_outs := []; a_left := []; a_post := [] |}.
 Definition add_effect (a : acc) (r : effect) : acc :=
   {| a_rets := match r_ret r with Some x => x :: a_rets a | None => a_rets a end;
      a_outs := rev (r_outs r) ++ a_outs a;
-     a_left := match r_left r with Some b => b :: a_left a | None => a_left a end |}.
+     a_left := match r_left r with Some b => b :: a_left a | None => a_left a end;
+     a_post := rev (r_post r) ++ a_post a |}.
 Definition mk_obs (fl : option (N * failure)) (a : acc) : obs :=
-  {| o_fail := fl; o_rets := rev (a_rets a); o_outs := rev (a_outs a); o_left := rev (a_left a) |}.
+  {| o_fail := fl; o_rets := rev (a_rets a); o_outs := rev (a_outs a); o_left := rev (a_left a); o_post := rev (a_post a) |}.
 
 Fixpoint run_from (fx : bool) (m : mock) (i : N) (ops : list op) (a : acc) : obs :=
   match ops with
@@ -539,6 +563,21 @@ Definition check_world (w : world) : res world :=
       else inl w
   end.
 
+(* the same with the reporter that does not leave: every scope's last call is finished, each failure is recorded *)
+Fixpoint finish_kids_nl (kids : list (N * mock)) : list (N * mock) * list failure :=
+  match kids with
+  | [] => ([], [])
+  | (t, m) :: r => let (m', f1) := finish_last_nl m in let (r', f2) := finish_kids_nl r in ((t, m') :: r', f1 ++ f2)
+  end.
+Definition finish_all_nl (w : world) : world * list failure :=
+  let (g, f1) := finish_last_nl (w_g w) in let (ks, f2) := finish_kids_nl (w_kids w) in ({| w_g := g; w_kids := ks |}, f1 ++ f2).
+(* MockSupportPlugin::postTestAction: mock().checkExpectations() with the recording reporter (then mock().clear()) *)
+Definition post_world (w : world) : list failure :=
+  let (w, fs) := finish_all_nl w in
+  if last_ok_all w && left_all w then fs ++ [history (all_exps w) FNotFulfilled]
+  else if ooo_all w then fs ++ [history (filter e_ooo (all_exps w)) FOutOfOrder]
+  else fs.
+
 (* one operation on mock() (s = 0) or on mock("s<s>") *)
 Definition stepw (fx : bool) (w : world) (so : N * op) : res (world * effect) :=
   let (s, o) := so in
@@ -547,9 +586,10 @@ Definition stepw (fx : bool) (w : world) (so : N * op) : res (world * effect) :=
     | OCheck => match check_world w with inr fl => inr fl | inl w => inl (w, no_effect) end
     | OLeft => match finish_all w with
                | inr fl => inr fl
-               | inl w => inl (w, {| r_ret := None; r_outs := []; r_left := Some (left_all w) |})
+               | inl w => inl (w, {| r_ret := None; r_outs := []; r_left := Some (left_all w); r_post := [] |})
                end
     | OClear => inl (world0, no_effect)                                  (* clears and deletes every scope *)
+    | OPost => inl (world0, {| r_ret := None; r_outs := []; r_left := None; r_post := post_world w |})
     | OIgnoreOtherCalls => inl (map_kids set_ignore w, no_effect)
     | OEnable => inl (map_kids (fun m => set_enabled m true) w, no_effect)
     | ODisable => inl (map_kids (fun m => set_enabled m false) w, no_effect)
@@ -931,11 +971,97 @@ Definition expectedw (k : canonw) : mres :=
   let i0 := N.of_nat (length (kw_cfg k) + length (kw_exps k)) in
   mw_calls k (map (fun s => (s, mst0 (strict_of (kw_cfg k) s) (of_scope s (kw_exps k)))) (0%N :: scopes_of k)) i0 (kw_calls k) macc0.
 
+(* --- the end-of-test check made by the plugin (scenario ends with mock() OPost instead of mock() OCheck): the reporter does
+   not leave the test, so the check can deliver several failures.  "The first deviation fails the test once with the matching
+   diagnosis": every scope whose last actual call cannot be finished (missing parameter / object) contributes that diagnosis
+   once, in creation order; the expectation such a call leaves unfulfilled is the same deviation and is NOT reported again; only
+   when every last call was fine an unfulfilled expectation of any scope is reported (once); calls out of order are a deviation
+   of their own (reported once, unless "not fulfilled" was). *)
+Definition pend_of (st : mst) : list dkind := match s_pend st with Some d => [d] | None => [] end.
+Definition m_post (sts : list mst) : list dkind :=
+  let ps := flat_map pend_of sts in
+  let ooo := existsb (fun st => existsb x_ooo (s_xs st)) sts in
+  match ps with
+  | [] => if existsb (fun st => existsb x_open (s_xs st)) sts then [DNotFulfilled] else if ooo then [DOutOfOrder] else []
+  | _ => if ooo then ps ++ [DOutOfOrder] else ps
+  end.
+(* the states of M after all calls, when no call fails at once *)
+Fixpoint mw_end (k : canonw) (sts : list (N * mst)) (cs : list (N * scall)) : option (list (N * mst)) :=
+  match cs with
+  | [] => Some sts
+  | (s, c) :: r => match m_call (ign_of (kw_cfg k) s) (knows (of_scope s (kw_exps k))) (get_st s sts) c with
+                   | inr _ => None
+                   | inl (st', _) => mw_end k (set_st s st' sts) r
+                   end
+  end.
+Definition sts0 (k : canonw) : list (N * mst) :=
+  map (fun s => (s, mst0 (strict_of (kw_cfg k) s) (of_scope s (kw_exps k)))) (0%N :: scopes_of k).
+(* the scenario with its final mock() OPost replaced by mock() OCheck *)
+Fixpoint post_to_check (ops : list (N * op)) : option (list (N * op)) :=
+  match ops with
+  | [] => None
+  | [(0%N, OPost)] => Some [(0%N, OCheck)]
+  | o :: r => match post_to_check r with Some r' => Some (o :: r') | None => None end
+  end.
+Definition kind_is (fl : failure) (d : dkind) : bool :=
+  match dkind_of (f_kind fl) with Some d' => dkind_eqb d' d | None => false end.
+Fixpoint list_eqb2 {A B} (eqb : A -> B -> bool) (a : list A) (b : list B) : bool :=
+  match a, b with [], [] => true | x :: a', y :: b' => eqb x y && list_eqb2 eqb a' b' | _, _ => false end.
+Definition is_nil {A} (l : list A) : bool := match l with [] => true | _ => false end.
+Definition passed_post (o : obs) : bool := passed_obs o && is_nil (o_post o).
+Definition specw_post (k : canonw) (o : obs) : bool :=
+  let r := expectedw k in
+  Bool.eqb (passed_post o) (verdictw_ok k)
+  && match mw_end k (sts0 k) (kw_calls k) with
+     | Some sts => passed_obs o && list_eqb2 kind_is (o_post o) (m_post (map snd sts))   (* every call went through: the end-of-test list *)
+     | None => fail_ok (o_fail o) (mr_fail r) && is_nil (o_post o)                        (* a call failed at once: the test was left there *)
+     end
+  && list_eqb opt_pv_eqb (o_rets o) (mr_rets r)
+  && outs_ok (mr_outs r) (o_outs o).
+
+(* --- "each actual call returns the return value and output-parameter bytes of the expectation it consumed", for EVERY scenario
+   (any operations, ignoreOtherParameters, ambiguous sets, parameters passed twice ...): a completed actual call that asked for
+   its return value got the return value of some expectation declared for that function in that scope, and every output buffer it
+   passed begins with the bytes THAT expectation defines for the buffer's name (nothing is demanded of names it does not define),
+   whatever else the call passed and in whatever order -- or the call was discarded (mock disabled / ignoreOtherCalls): no return
+   value, buffers untouched. *)
+Record dexp := { d_scope : N; d_f : name; d_outs : list (name * list N); d_ret : option pv }.
+Definition coherent_call (ds : list dexp) (s : N) (f : name) (its : list item) (ret : option pv) (bufs : list (list N)) : bool :=
+  (match ret with None => list_eqb bytes_eqb (bufs_of its) bufs | Some _ => false end)
+  || existsb (fun d => (d_scope d =? s)%N && (d_f d =? f)%N && opt_pv_eqb ret (d_ret d)
+                       && outs_ok (map (fun n => lookup_out n (d_outs d)) (out_names its)) bufs) ds.
+Definition undeclare (s : N) (ds : list dexp) : list dexp := if (s =? 0)%N then [] else filter (fun d => negb (d_scope d =? s)%N) ds.
+(* walk over the operations that were completed (those before the failing one), handing each actual call its share of the
+   returned values and of the output buffers *)
+Fixpoint coh (ops : list (N * op)) (i : N) (stop : option N) (ds : list dexp) (rets : list (option pv)) (outs : list (list N)) : bool :=
+  match ops with
+  | [] => true
+  | (s, o) :: r =>
+      if match stop with Some j => (j <=? i)%N | None => false end then true else
+      match o with
+      | OExpect _ f _ os _ ret _ => coh r (i + 1)%N stop (ds ++ [{| d_scope := s; d_f := f; d_outs := os; d_ret := ret |}]) rets outs
+      | OCall f its want =>
+          let k := length (out_names its) in
+          if want then
+            match rets with
+            | [] => false
+            | rv :: rets' => (length (firstn k outs) =? k)%nat && coherent_call ds s f its rv (firstn k outs)
+                             && coh r (i + 1)%N stop ds rets' (skipn k outs)
+            end
+          else coh r (i + 1)%N stop ds rets (skipn k outs)
+      | OClear | OPost => coh r (i + 1)%N stop (undeclare s ds) rets outs
+      | _ => coh r (i + 1)%N stop ds rets outs
+      end
+  end.
+Definition coherent (ops : list (N * op)) (o : obs) : bool :=
+  coh ops 0%N (match o_fail o with Some (j, _) => Some j | None => None end) [] (o_rets o) (o_outs o).
+
 (* spec over the scopes: (1) passes iff in every scope the multisets (strict: sequences) agree; (2) first deviation, once, with
-   the matching diagnosis; (3) value and output bytes of the consumed expectation *)
+   the matching diagnosis -- also when the end-of-test check is the plugin's; (3) value and output bytes of the consumed
+   expectation *)
 Definition specw (ops : list (N * op)) (o : obs) : bool :=
+  coherent ops o &&
   match parsew ops with
-  | None => true
   | Some k =>
       if negb (judgedw k) then true else
       let r := expectedw k in
@@ -943,6 +1069,15 @@ Definition specw (ops : list (N * op)) (o : obs) : bool :=
       && fail_ok (o_fail o) (mr_fail r)
       && list_eqb opt_pv_eqb (o_rets o) (mr_rets r)
       && outs_ok (mr_outs r) (o_outs o)
+      && is_nil (o_post o)
+  | None =>
+      match post_to_check ops with
+      | Some ops' => match parsew ops' with
+                     | Some k => if negb (judgedw k) then true else specw_post k o
+                     | None => true
+                     end
+      | None => true
+      end
   end.
 
 (* validity of the values in a scenario: typed values in range, output data fits the caller's buffers *)
